@@ -177,6 +177,13 @@ class EscapeStr(Contract):
                 'first_char_kept': z3.Implies(z3.Length(s) > 0, T.AND(z3.Length(rt) > 0, rt[0] == s[0])),
                 'text_is_dollar_doubling': rt == FR.dol(s)}
 
+    def apply_at_call(self, I, bound, site, frame):
+        if isinstance(bound.get('string'), str):
+            # a concrete string: the caller interprets the body (the result is then the concrete text)
+            from pyvc.interp import InlineInstead
+            raise InlineInstead()
+        return Contract.apply_at_call(self, I, bound, site, frame)
+
     def result_value(self, I, a):
         return fresh_sym('mesc', 'str')
 
@@ -243,6 +250,7 @@ class Write(Contract):
         cs = ['%s/%s' % (k, sx) for k in make_write_kinds() for sx in self.SYNTAXES]
         cs += ['jbos/%s/%s' % (sx, sq) for sx in self.SYNTAXES for sq in ('quote', 'inner', 'none')]
         cs += ['str/shell/inner', 'path/shell/str', 'path/shell/var+str', 'path/shell/var']
+        cs += ['synstr/shell/function', 'synstr/shell/inherit', 'synstr/target/inherit']
         return cs
 
     def loops(self):
@@ -341,6 +349,13 @@ class Write(Contract):
             cx.ghost('V', z3.Const('var_ref', T.Str))
             cx.ghost('pm', z3.Const('var_markers', T.Str))
             return {'self': selfv, 'thing': Obj(PosixPath, {'is_path_param': True}), 'syntax': Syntax[sx]}
+        if kind == 'synstr':
+            # an unquoted syntax_string (the shape of Function.use / Call): its data is written by a nested writer in
+            # the string's own syntax if it has one, else in the caller's, with the caller's shell_quote
+            own = Syntax.function if case.split('/')[2] == 'function' else None
+            data = Sym(z3.Const('data', FR.SafeStr), ('opaque', 'SafeStr'))
+            return {'self': selfv, 'thing': Obj(msyn.syntax_string, {'data': data, 'syntax': own, 'quoted': False}),
+                    'syntax': Syntax[sx]}
         if kind == 'jbos':
             self.cur_sq = case.split('/')[2]
             bits = z3.Const('bits', FR.Bits)
@@ -358,8 +373,11 @@ class Write(Contract):
         t = a.thing
         return M.sym_str(t.attrs['string']) if isinstance(t, Obj) else M.sym_str(t)
 
+    def is_synstr(self, a):
+        return isinstance(a.thing, Obj) and a.thing.cls is msyn.syntax_string
+
     def requires(self, a):
-        if self.is_jbos(a):
+        if self.is_jbos(a) or self.is_synstr(a):
             return z3.BoolVal(True)
         if self.is_path(a):
             return T.AND(z3.Not(has_crlf(a.rz)), self.var_ok(a),
@@ -382,6 +400,12 @@ class Write(Contract):
             return {'text_is_concatenation_of_fragment_texts': buf == z3.Concat(a.buf0, fns.CW(bits, n)),
                     'flag_is_disjunction_of_fragment_flags': T.zbool(M.lift(r)) == fns.OE(bits, n)}
         w = written(a.self, a.buf0)
+        if self.is_synstr(a):
+            sx = a.thing.attrs['syntax'] or a.syntax
+            fns = FR.frag_fns('make', sx, 'quote')
+            d = a.thing.attrs['data'].e
+            return {'text_is_the_data_written_in_the_strings_own_syntax': w == fns.Wt(d),
+                    'flag_is_the_flag_of_the_data': T.zbool(M.lift(r)) == fns.We(d)}
         if self.is_path(a):
             ok, tt = PS.reader_out(self.READER, w)
             content = {'str': a.rz, 'var': a.pm, 'var+str': T.cat(a.pm, a.rz)}[a.shape]
